@@ -135,6 +135,10 @@ def cells(tier):
         out.append({'kind': 'v1short', 'line': 2, 'k': 2, 'via': 'detect'})
     out.append({'kind': 'v1pair', 'a': 0, 'b': 3, 'via': 'v1'})
     out.append({'kind': 'v1pair', 'a': 2, 'b': 0, 'via': 'detect'})
+    # two connections whose 8-byte signatures differ ('PROXY TC' / 'PROXY
+    # UN'): state shared between connections during auto-detection shows
+    out.append({'kind': 'v1pair', 'a': 0, 'b': 1, 'via': 'detect'})
+    out.append({'kind': 'v1pair', 'a': 1, 'b': 0, 'via': 'detect'})
     out.append({'kind': 'detect8'})
     return out
 
